@@ -92,6 +92,14 @@ def runs_gm(tier, modes, proj=None, chk=True):
     return out
 
 
+def runs_xen(tier, proj=None):
+    """guest-memory world in the `xen` feature build: UNIX, foreign, advance-mapped grant and on-demand grant regions through hook H3"""
+    r = {"world": "gm", "n": 8000 if tier == "quick" else 300000, "opts": ["xen"], "features": "xen", "seed_off": 31}
+    if proj:
+        r["proj"] = proj
+    return [r]
+
+
 def with_proj(runs, proj):
     for r in runs:
         r["proj"] = proj
@@ -145,20 +153,20 @@ PROPS.update({
     },
     "C17": {
         "modules": ["VmMem.Props.C17"], "theorems": T("C17"),
-        "runs": lambda tier: with_proj(runs_slice(tier), {"ops": GUARD_OPS, "drop": ["h=", "d="]}),
-        "trusted_base": ["Xen gntdev/privcmd ioctls and mmap (kernel); page size from sysconf"],
-        "assumptions": ["PARTIAL: the Xen on-demand half is proved over the window model (VmMem/Model/Xen.lean) but the correspondence run covers the standard build only; "
-                        "the emulated-ioctl hook H3 is not built in this session"],
+        "runs": lambda tier: with_proj(runs_slice(tier), {"ops": GUARD_OPS, "drop": ["h=", "d="]}) + runs_xen(tier),
+        "trusted_base": ["Xen gntdev/privcmd ioctls and mmap (kernel), emulated by hook H3: grant reference r = file offset r*4096; page size from sysconf"],
+        "assumptions": ["PARTIAL: the on-demand half is proved over the window model (VmMem/Model/Xen.lean) and tied by the xen-feature run through emulated ioctls (every touched byte range must lie in a window requested during the op, "
+                        "every window released); what the real gntdev maps is the kernel's"],
     },
     "C18": {
         "modules": ["VmMem.Props.C18", "VmMem.Props.C18g"], "theorems": T("C18") + T("C18g"),
-        "runs": lambda tier: runs_slice(tier, streams=True) + runs_gm(tier, ["mixed"], chk=True),
+        "runs": lambda tier: runs_slice(tier, streams=True) + runs_gm(tier, ["mixed"], chk=True) + (runs_xen(tier) if tier == "thorough" else []),
         "trusted_base": [],
-        "assumptions": ["Xen advance / on-demand regions are not exercised (standard build only)"],
+        "assumptions": ["Xen advance / on-demand regions are exercised in the thorough tier (xen-feature build through hook H3)"],
     },
     "C03": {
         "modules": ["VmMem.Props.C03"], "theorems": T("C03"),
-        "runs": lambda tier: runs_gm(tier, ["mixed", "edit"], {"drop": ["d="]}),
+        "runs": lambda tier: runs_gm(tier, ["mixed", "edit"], {"drop": ["d="]}) + (runs_xen(tier, {"drop": ["d="]}) if tier == "thorough" else []),
         "trusted_base": ["C02 (address resolution), C04 (container data effect)", "kernel page-cache coherence of file mappings (observed, not proved)"],
         "assumptions": ["layouts built through the safe constructors (WF); custom GuestMemory implementations with a region ending at 2^64 are outside the quantifier (no_wrap shows the wrap branch is dead under WF)"],
     },
@@ -176,5 +184,28 @@ PROPS.update({
         "trusted_base": ["SeqCst fetch_or / fetch_and are atomic read-modify-write steps and executions are sequentially consistent interleavings of them (justified by Ordering::SeqCst)",
                          "load(Acquire) returns some value the word held", "hook H2 (AtomicU64 stand-in) forwards to std's AtomicU64"],
         "assumptions": ["PARTIAL: weaker-than-SeqCst hardware effects are outside the model; reset() uses plain stores and is documented as not being a harvest (resetProgram_all_store)"],
+    },
+    "C11": {
+        "modules": ["VmMem.Props.C11"], "theorems": T("C11"),
+        "runs": lambda tier: [{"world": "amem", "n": 6000 if tier == "quick" else 300000, "opts": [] if tier == "quick" else ["stress"]}],
+        "trusted_base": ["ArcSwap::load/store are atomic and return/replace whole Arc<M> values; Mutex gives mutual exclusion; Arc frees exactly when the last reference goes",
+                         "replace(self, map) stores before the exclusive guard (self) is dropped (statement order in atomic.rs)"],
+        "assumptions": ["PARTIAL for the schedules quantifier: the theorem quantifies over all interleavings of the model's atomic steps; that the real ArcSwap/Mutex steps are atomic is trusted. "
+                        "The correspondence run is sequential; the thorough tier adds a reader/updater stress on real threads"],
+    },
+    "C12": {
+        "modules": ["VmMem.Props.C12"], "theorems": T("C12"),
+        "runs": lambda tier: [{"world": "life", "n": 2500 if tier == "quick" else 60000}],
+        "corpus": True,
+        "trusted_base": ["Arc drops its value exactly when the last reference goes; munmap/mmap are the kernel's; /proc/self/maps reflects the mappings",
+                         "rustc's borrow checker (programs quantifier)"],
+        "assumptions": ["PARTIAL: histories are proved over the ownership model and tied by /proc/self/maps observations; 'an escaping accessor must not compile' is decided by a corpus of 23 escaping programs "
+                        "(all must be rejected with a borrow/lifetime error) and 6 controls, i.e. by testing a corpus, not by a theorem"],
+    },
+    "C15": {
+        "modules": ["VmMem.Props.C15"], "theorems": T("C15"),
+        "runs": lambda tier: [{"world": "build", "n": 3000 if tier == "quick" else 60000}],
+        "trusted_base": ["the kernel's mmap either fails or maps what was asked (model parameter)", "file mapping coherence is kernel behaviour: observed by the run, not proved"],
+        "assumptions": ["PARTIAL: the Xen half (flag words, file requirements) is proved over the model; the quick run covers the Unix build"],
     },
 })
